@@ -188,28 +188,36 @@ static int rep_coord (int rep, ll *c, int size)
 }
 /* scans every sample of the image that contributes to the box [x1,x2) x [y1,y2) (image space, before the
    transform).  returns 0 = all exist and are alpha-full, 1 = one lies outside a non-repeating image,
-   2 = one has alpha < 1, 3 = not decidable here (projective transform / convolution).  *where receives the pixel. */
-static int scan_samples (const idesc_t *d, const pixman_image_t *img, const uint8_t *bits, int x1, int y1, int x2, int y2, int *wx, int *wy, int geometry_only)
+   2 = one has alpha < 1, 3 = not decidable here (convolution, overflowing coordinates).  *where receives the pixel. */
+static int scan_samples (const idesc_t *d, const pixman_image_t *img, const uint8_t *bits, int x1, int y1, int x2, int y2, int *wx, int *wy, int geometry_only, int strict)
 {
     const pixman_transform_t *t = img->common.transform;
     int filter = d->filter;
     if (filter == PIXMAN_FILTER_CONVOLUTION || filter == PIXMAN_FILTER_SEPARABLE_CONVOLUTION) return 3;
-    if (t && (t->matrix[2][0] != 0 || t->matrix[2][1] != 0 || t->matrix[2][2] != 65536)) return 3;
+    int proj = t && (t->matrix[2][0] != 0 || t->matrix[2][1] != 0 || t->matrix[2][2] != 65536);
     int bil = filter == PIXMAN_FILTER_BILINEAR || filter == PIXMAN_FILTER_GOOD || filter == PIXMAN_FILTER_BEST;
     for (int y = y1; y < y2; y++) for (int x = x1; x < x2; x++) {
         ll X = (ll) x * 65536 + 32768, Y = (ll) y * 65536 + 32768, vx = X, vy = Y;
-        if (t) {
+        if (t && !proj) {
             vx = ((ll) t->matrix[0][0] * X + (ll) t->matrix[0][1] * Y + (ll) t->matrix[0][2] * 65536 + 0x8000) >> 16;
             vy = ((ll) t->matrix[1][0] * X + (ll) t->matrix[1][1] * Y + (ll) t->matrix[1][2] * 65536 + 0x8000) >> 16;
+        } else if (proj) {
+            /* the general fetcher: homogeneous coordinates of the first pixel of the scanline rounded to 16.16, stepped by the first
+               matrix column, each pixel divided by w with C's truncating division */
+            ll X0 = (ll) x1 * 65536 + 32768, h[3];
+            for (int r = 0; r < 3; r++) h[r] = (((ll) t->matrix[r][0] * X0 + (ll) t->matrix[r][1] * Y + (ll) t->matrix[r][2] * 65536 + 0x8000) >> 16) + (ll) (x - x1) * t->matrix[r][0];
+            if (h[0] != (int32_t) h[0] || h[1] != (int32_t) h[1] || h[2] != (int32_t) h[2]) return 3;
+            if (h[2] != 0) { vx = (int32_t) ((h[0] * 65536) / h[2]); vy = (int32_t) ((h[1] * 65536) / h[2]); } else vx = vy = 0;
         }
         ll tx[2], ty[2]; int nx = 1, ny = 1;
         if (!bil) { tx[0] = fl16 (vx - 1); ty[0] = fl16 (vy - 1); }
         else {
             ll bx = vx - 32768, by = vy - 32768;
             tx[0] = fl16 (bx); ty[0] = fl16 (by);
-            /* the second tap has weight (frac >> 9) & 0x7f: it contributes only when that is non-zero */
-            if ((bx >> 9) & 0x7f) { tx[1] = tx[0] + 1; nx = 2; }
-            if ((by >> 9) & 0x7f) { ty[1] = ty[0] + 1; ny = 2; }
+            /* the second tap contributes only when its weight is non-zero: 8-bit pipeline (frac >> 9) & 0x7f, float pipeline
+               frac / 65536.f.  strict: the float criterion (implies the other) */
+            if (strict ? (bx & 0xffff) : ((bx >> 9) & 0x7f)) { tx[1] = tx[0] + 1; nx = 2; }
+            if (strict ? (by & 0xffff) : ((by >> 9) & 0x7f)) { ty[1] = ty[0] + 1; ny = 2; }
             /* a first tap of weight zero does not exist (weights 0..127 of 128): it always contributes */
         }
         for (int j = 0; j < ny; j++) for (int i = 0; i < nx; i++) {
@@ -256,7 +264,7 @@ static const char *kind_name (const idesc_t *d)
 }
 
 /* flag oracle for one image in role `who` */
-static void flag_oracle (const char *who, const idesc_t *d, pixman_image_t *img, const uint8_t *bits, int x1, int y1, int x2, int y2)
+static void flag_oracle (const char *who, const idesc_t *d, pixman_image_t *img, const uint8_t *bits, int x1, int y1, int x2, int y2, int strict)
 {
     int wx = 0, wy = 0;
     if (d->kind == K_SOLID) {
@@ -266,7 +274,7 @@ static void flag_oracle (const char *who, const idesc_t *d, pixman_image_t *img,
     if (d->ca) { fprintf (forc, "ORACLE %ld flag-%s component-alpha image treated as opaque\n", lineno + 1, who); return; }
     if (d->kind == K_BITS) {
         if (d->filter == PIXMAN_FILTER_CONVOLUTION) { fprintf (forc, "ORACLE %ld flag-%s image with a convolution filter treated as opaque\n", lineno + 1, who); return; }
-        int r = scan_samples (d, img, bits, x1, y1, x2, y2, &wx, &wy, 0);
+        int r = scan_samples (d, img, bits, x1, y1, x2, y2, &wx, &wy, 0, strict);
         if (r == 1) fprintf (forc, "ORACLE %ld flag-%s %s treated as opaque but the sample of pixel (%d,%d) lies outside the non-repeating image\n", lineno + 1, who, kind_name (d), wx, wy);
         if (r == 2) fprintf (forc, "ORACLE %ld flag-%s %s treated as opaque but a sample of pixel (%d,%d) has alpha < 1\n", lineno + 1, who, kind_name (d), wx, wy);
         return;
@@ -312,8 +320,10 @@ static void run_req (const req_t *q, res_t *r, char *srcTok, char *maskTok, char
     if (r->called) {
         int x1 = q->dx < 0 ? 0 : q->dx, y1 = q->dy < 0 ? 0 : q->dy;
         int x2 = q->dx + q->w > q->dst.w ? q->dst.w : q->dx + q->w, y2 = q->dy + q->h > q->dst.h ? q->dst.h : q->dy + q->h;
-        if (r->sfl & FAST_PATH_IS_OPAQUE) { n_flag_scans++; flag_oracle ("src", &q->src, si, sb, x1 + q->sx - q->dx, y1 + q->sy - q->dy, x2 + q->sx - q->dx, y2 + q->sy - q->dy); }
-        if (mi && ((r->mfl & FAST_PATH_IS_OPAQUE) || r->elided)) { n_flag_scans++; flag_oracle ("mask", &q->mask, mi, mb, x1 + q->mx - q->dx, y1 + q->my - q->dy, x2 + q->mx - q->dx, y2 + q->my - q->dy); }
+        /* a wide destination is only handled by the float pipeline: there a bilinear tap contributes whenever its 16-bit fraction is non-zero */
+        int strict = q->dst.fmt == PIXMAN_rgba_float || q->dst.fmt == PIXMAN_a2r10g10b10 || q->dst.fmt == PIXMAN_x2r10g10b10;
+        if (r->sfl & FAST_PATH_IS_OPAQUE) { n_flag_scans++; flag_oracle ("src", &q->src, si, sb, x1 + q->sx - q->dx, y1 + q->sy - q->dy, x2 + q->sx - q->dx, y2 + q->sy - q->dy, strict); }
+        if (mi && ((r->mfl & FAST_PATH_IS_OPAQUE) || r->elided)) { n_flag_scans++; flag_oracle ("mask", &q->mask, mi, mb, x1 + q->mx - q->dx, y1 + q->my - q->dy, x2 + q->mx - q->dx, y2 + q->my - q->dy, strict); }
         if ((r->dfl & FAST_PATH_IS_OPAQUE) && (PIXMAN_FORMAT_A (q->dst.fmt) || q->dst.fmt == PIXMAN_rgba_float))
             fprintf (forc, "ORACLE %ld flag-dest destination format %08x has an alpha channel and is treated as opaque\n", lineno + 1, q->dst.fmt);
     }
@@ -331,6 +341,26 @@ static void emit (const req_t *q, const res_t *r, const char *st, const char *mt
     else fprintf (fr, "out\n");
 }
 
+/* largest per-channel difference between two destinations, in units of the last place of the destination format
+   (float: absolute difference in units of 2^-24) */
+static unsigned chdiff (uint32_t x, uint32_t y, int sh, int bits) { int a = (x >> sh) & ((1u << bits) - 1), b = (y >> sh) & ((1u << bits) - 1); return (unsigned) abs (a - b); }
+static unsigned max_diff (const req_t *a, const res_t *ra, const res_t *rb, int cmp)
+{
+    unsigned m = 0, d;
+    uint32_t f = a->dst.fmt;
+    if (ra->nwords != rb->nwords) return 0xffffffffu;
+    for (int i = 0; i < ra->nwords; i++) {
+        uint32_t x = ra->out[i], y = rb->out[i];
+        if (f == PIXMAN_rgba_float) {      /* absolute difference in units of 2^-24 (half an ulp of 1.0), rounded up */
+            float fx, fy; memcpy (&fx, &x, 4); memcpy (&fy, &y, 4);
+            double dd = fabs ((double) fx - (double) fy) * 16777216.0;
+            d = x == y ? 0 : !(dd < 4e9) ? 0xffffffffu : (unsigned) ceil (dd); if (d > m) m = d; continue; }
+        if (f == PIXMAN_r5g6b5) { d = chdiff (x, y, 11, 5); if (d > m) m = d; d = chdiff (x, y, 5, 6); if (d > m) m = d; d = chdiff (x, y, 0, 5); if (d > m) m = d; continue; }
+        if (f == PIXMAN_a2r10g10b10 || f == PIXMAN_x2r10g10b10) { for (int c = 0; c < 3; c++) { d = chdiff (x, y, 10 * c, 10); if (d > m) m = d; } if (!cmp) { d = chdiff (x, y, 30, 2); if (d > m) m = d; } continue; }
+        for (int c = 0; c < (cmp ? 3 : 4); c++) { d = chdiff (x, y, 8 * c, 8); if (d > m) m = d; }
+    }
+    return m;
+}
 /* colour-only comparison word of destination pixel words */
 static long n_precision_skips;
 static int needs_div (int op) { return op == 13 || (op >= 19 && op <= 27) || (op >= 35 && op <= 43) || op == 53 || op == 54 || op == 56 || (op >= 59 && op <= 62); }
@@ -405,7 +435,24 @@ static void gen_transform (idesc_t *d, int cls, int ox, int oy, int w, int h, in
     if (cls == 1 || ((cls == 3 || cls == 4) && rng_chance (35))) { tx = floor (tx); ty = floor (ty); }
     else if (rng_chance (15)) { tx = floor (tx) + rng_range (-2, 2) / 65536.0; ty = floor (ty) + 0.5 + rng_range (-2, 2) / 65536.0; }
     d->m[2] = (int32_t) lrint (tx * 65536); d->m[5] = (int32_t) lrint (ty * 65536);
-    if (cls == 5) { d->m[6] = rng_range (-40, 40) * 16; d->m[7] = rng_range (-40, 40) * 16; d->m[8] = 65536 + rng_range (-2000, 2000); }
+    if (cls == 5) {
+        d->m[6] = rng_range (-40, 40) * 16; d->m[7] = rng_range (-40, 40) * 16; d->m[8] = 65536 + rng_range (-2000, 2000);
+        if (rng_chance (45)) {
+            /* the sample of one corner pixel of the request lands within a few 1/65536 of an image edge (where rounding the
+               homogeneous division to nearest or towards zero makes the difference between inside and outside) */
+            int px = rng_chance (50) ? ox : ox + w - 1, py = rng_chance (50) ? oy : oy + h - 1;
+            ll wantx = rng_chance (50) ? rng_range (-2, 4) : (ll) d->w * 65536 + rng_range (-3, 3), wanty = rng_chance (50) ? rng_range (-2, 4) : (ll) d->h * 65536 + rng_range (-3, 3);
+            if (rng_chance (30)) wantx = (ll) rng_n (d->w) * 65536 + 32768;
+            else if (rng_chance (40)) wanty = (ll) rng_n (d->h) * 65536 + 32768;
+            for (int it = 0; it < 3; it++) {
+                ll X = (ll) px * 65536 + 32768, Y = (ll) py * 65536 + 32768, hh[3];
+                for (int r = 0; r < 3; r++) hh[r] = ((ll) d->m[3 * r] * X + (ll) d->m[3 * r + 1] * Y + (ll) d->m[3 * r + 2] * 65536 + 0x8000) >> 16;
+                if (!hh[2]) break;
+                ll vx = hh[0] * 65536 / hh[2], vy = hh[1] * 65536 / hh[2];
+                d->m[2] += (int32_t) ((wantx - vx) * hh[2] / 65536); d->m[5] += (int32_t) ((wanty - vy) * hh[2] / 65536);
+            }
+        }
+    }
 }
 
 static int pick_filter (void) { int k = rng_n (100); return k < 35 ? PIXMAN_FILTER_NEAREST : k < 45 ? PIXMAN_FILTER_FAST : k < 75 ? PIXMAN_FILTER_BILINEAR : k < 80 ? PIXMAN_FILTER_GOOD : k < 85 ? PIXMAN_FILTER_BEST : PIXMAN_FILTER_CONVOLUTION; }
@@ -467,7 +514,7 @@ static int inside_query (const idesc_t *d, const req_t *q, int is_mask)
     int x1 = q->dx < 0 ? 0 : q->dx, y1 = q->dy < 0 ? 0 : q->dy;
     int x2 = q->dx + q->w > q->dst.w ? q->dst.w : q->dx + q->w, y2 = q->dy + q->h > q->dst.h ? q->dst.h : q->dy + q->h;
     int ox = (is_mask ? q->mx : q->sx) - q->dx, oy = (is_mask ? q->my : q->sy) - q->dy, wx, wy;
-    int r = (x1 < x2 && y1 < y2) ? scan_samples (&tmp, img, st, x1 + ox, y1 + oy, x2 + ox, y2 + oy, &wx, &wy, 1) : 0;
+    int r = (x1 < x2 && y1 < y2) ? scan_samples (&tmp, img, st, x1 + ox, y1 + oy, x2 + ox, y2 + oy, &wx, &wy, 1, 1) : 0;
     pixman_image_unref (img); free (st);
     return r;
 }
@@ -553,7 +600,7 @@ static void gen_group (void)
            exists also: no mask at all, a8 0xff, solid alpha 0xffff, 1x1 repeating, other repeat modes (unified alpha only) */
         q.role = 1; q.op = pick_op (0);
         gen_dest (&q.dst, &q, 1); gen_other_source (&q.src, &q);
-        if (rng_chance (60)) { q.src.kind = K_BITS; q.src.fmt = PIXMAN_a8r8g8b8; q.src.content = rng_chance (70) ? 3 : 2; if (q.src.w < q.w + q.sx || q.src.w < 1) q.src.w = q.w + 3; if (q.src.h < q.h + q.sy) q.src.h = q.h + 3; }
+        if (rng_chance (60)) { q.src.kind = K_BITS; q.src.fmt = PIXMAN_a8r8g8b8; q.src.content = rng_chance (70) ? 3 : 2; if (q.src.w < q.w + q.sx || q.src.w < 1) q.src.w = q.w + 3; if (q.src.h < q.h + q.sy || q.src.h < 1) q.src.h = q.h + 3; }
         idesc_t *m = &q.mask; memset (m, 0, sizeof *m);
         m->kind = K_BITS; m->seed = rng_u64 (); m->content = 0; m->q565 = rng_chance (40); m->ca = rng_chance (25);
         m->w = q.w + rng_n (10); m->h = q.h + rng_n (10); m->rep = rng_chance (50) ? 0 : rng_n (4); m->filter = pick_filter (); m->kern = 1 + rng_n (3);
@@ -624,8 +671,8 @@ static void run_group (void)
         if (k > 0) {
             int at;
             if (!same_dest (&V[0], &R[0], &V[k], &R[k], V[k].cmp, &at))
-                fprintf (forc, "ORACLE %ld pair '%s' differs from '%s' (line %ld) at destination word %d: %08x vs %08x\n", lineno + 1, VN[k], VN[0], first + 1, at,
-                         at >= 0 ? R[k].out[at] : 0, at >= 0 ? R[0].out[at] : 0);
+                fprintf (forc, "ORACLE %ld pair '%s' differs from '%s' (line %ld) maxdiff=%u at destination word %d: %08x vs %08x\n", lineno + 1, VN[k], VN[0], first + 1,
+                         max_diff (&V[0], &R[0], &R[k], V[k].cmp), at, at >= 0 ? R[k].out[at] : 0, at >= 0 ? R[0].out[at] : 0);
         }
         lineno++;
     }
@@ -702,8 +749,8 @@ int main (int argc, char **argv)
             if (q.gid == refgid) {
                 int at;
                 if (!same_dest (&refq, &ref, &q, &cur, q.cmp, &at))
-                    fprintf (forc, "ORACLE %ld pair presentation differs from the first of its group (line %ld) at destination word %d: %08x vs %08x\n", lineno + 1, refline, at,
-                             at >= 0 ? cur.out[at] : 0, at >= 0 ? ref.out[at] : 0);
+                    fprintf (forc, "ORACLE %ld pair presentation differs from the first of its group (line %ld) maxdiff=%u at destination word %d: %08x vs %08x\n", lineno + 1, refline,
+                             max_diff (&refq, &ref, &cur, q.cmp), at, at >= 0 ? cur.out[at] : 0, at >= 0 ? ref.out[at] : 0);
             } else { ref = cur; refq = q; refgid = q.gid; refline = lineno + 1; }
             lineno++;
         }
